@@ -76,6 +76,9 @@ type Violation struct {
 	Seed     int64          `json:"seed"`
 	Tier     string         `json:"tier"`
 	Witness  map[string]any `json:"witness,omitempty"`
+	// NoReplay: the evidence is a report of an external observer over the whole run (race detector log);
+	// it cannot be re-derived from a single case and is not re-checked in a fresh process.
+	NoReplay bool `json:"no_replay,omitempty"`
 }
 
 func (v *Violation) Class() string { return v.Property + "|" + v.Clause + "|" + v.Key }
